@@ -30,7 +30,7 @@ from pexpect.exceptions import EOF, TIMEOUT
 PROPERTY = 'C16'
 RULE = ('Hypothesis-generated command sequences (1-12 commands: single-line, multi-line, no output, output without final '
         'newline, output of 0..300 KB, incomplete constructs) x {bash, python} x {run_command, awaited run_command} on '
-        'real REPLs, one REPL per sequence; plus a REPL played by a scripted child that prints output and prompt in pieces '
+        'real REPLs, one REPL per sequence (a third of the bash ones inherit a printing PROMPT_COMMAND); plus a REPL played by a scripted child that prints output and prompt in pieces '
         'cut at generated offsets (mostly inside the prompt; outputs contain prompt prefixes), maxread in {1, 7, 64, 2000}.  Non-trivial: >= 3 commands including an incomplete one, or an output > 64 KB '
         'followed by a small one, or (scripted) a prompt that arrived in pieces / maxread < 16.  Distinct by hash of the case.')
 ASSUMPTIONS = [
